@@ -18,6 +18,7 @@ FILTERS = (
     "non_idle_machines",
     "non_immediate_operations",
 )
+USER_FILTERS = ("user_keep_last", "user_longest_only")
 
 
 class Model:
@@ -142,6 +143,16 @@ class Model:
     def f_non_immediate_operations(self, ops):
         t = self.min_start(ops)
         return [(j, p) for j, p in ops if self.est1(j, p) == t]
+
+    # user-defined filters used by the harness (any callable returning a sub-list is a valid filter)
+    def f_user_keep_last(self, ops):
+        return list(ops[-1:])
+
+    def f_user_longest_only(self, ops):
+        if not ops:
+            return []
+        mx = max(self.dur(j, p) for j, p in ops)
+        return [(j, p) for j, p in ops if self.dur(j, p) == mx]
 
     def apply_filters(self, names, ops):
         for name in names:
